@@ -642,8 +642,8 @@ def b_track_2ints(tier, rnd):
 
 @battery("track_bpm")
 def b_track_bpm(tier, rnd):
-    bpms = list(range(4, 1001)) + [4000, 60000000, 59999999, 30000001]
-    return {"rule": "bpm 4..1000 and extremes", "cases": [(t, b) for t in _tracks()[:2] for b in bpms]}
+    bpms = list(range(1, 1001)) + [4000, 60000000, 59999999, 30000001]
+    return {"rule": "bpm 1..1000 (1..3 do not fit three bytes: refused) and extremes", "cases": [(t, b) for t in _tracks()[:2] for b in bpms]}
 
 
 @battery("track_only")
